@@ -818,6 +818,57 @@ type leafListNotification struct {
 	leaflists []*sdcpb.TypedValue
 }
 
+// stripIdentityrefKeyPrefixes removes the module prefix a device may put in front of a key value
+// (network-instance protocol [identifier=oc-pol-types:BGP]) where the key leaf is an identityref and
+// what follows the prefix is one of its identities. Any other key value keeps its ':'.
+func (c *Converter) stripIdentityrefKeyPrefixes(ctx context.Context, p *sdcpb.Path) {
+	for i, pe := range p.GetElem() {
+		hasPrefixedValue := false
+		for _, v := range pe.GetKey() {
+			if strings.Contains(v, ":") {
+				hasPrefixedValue = true
+			}
+		}
+		if !hasPrefixedValue {
+			continue
+		}
+		rsp, err := c.schemaClientBound.GetSchemaSdcpbPath(ctx, &sdcpb.Path{Elem: p.GetElem()[:i+1]})
+		if err != nil {
+			continue
+		}
+		for _, ks := range rsp.GetSchema().GetContainer().GetKeys() {
+			v, ok := pe.GetKey()[ks.GetName()]
+			if !ok {
+				continue
+			}
+			idx := strings.Index(v, ":")
+			if idx <= 0 {
+				continue
+			}
+			if isIdentityOf(ks.GetType(), v[idx+1:]) {
+				pe.Key[ks.GetName()] = v[idx+1:]
+			}
+		}
+	}
+}
+
+// isIdentityOf reports whether the leaf type is (or, for unions and leafrefs, contains) an identityref that knows the identity.
+func isIdentityOf(slt *sdcpb.SchemaLeafType, identity string) bool {
+	if slt == nil {
+		return false
+	}
+	if slt.GetType() == "identityref" {
+		_, ok := slt.GetIdentityPrefixesMap()[identity]
+		return ok
+	}
+	for _, ut := range slt.GetUnionTypes() {
+		if isIdentityOf(ut, identity) {
+			return true
+		}
+	}
+	return isIdentityOf(slt.GetLeafrefTargetType(), identity)
+}
+
 func (c *Converter) ConvertNotificationTypedValues(ctx context.Context, n *sdcpb.Notification) (*sdcpb.Notification, error) {
 	// this map serves as a context to group leaf-lists
 	// sent as keys in separate updates.
@@ -830,6 +881,7 @@ func (c *Converter) ConvertNotificationTypedValues(ctx context.Context, n *sdcpb
 	// convert typed values to their YANG type
 	for _, upd := range n.GetUpdate() {
 		StripPathElemPrefixPath(upd.GetPath())
+		c.stripIdentityrefKeyPrefixes(ctx, upd.GetPath())
 		scRsp, err := c.schemaClientBound.GetSchemaSdcpbPath(ctx, upd.GetPath())
 		if err != nil {
 			return nil, err
